@@ -302,9 +302,8 @@ Fixpoint replay_loop (rows : list frame) (gfb gfe : Z) : M (Z * Z) :=
         replay_loop rows' (f_seq r + 1) gfe
   end.
 
-Definition process_resend (f : frame) : M unit :=
-  w <- get ;;
-  (if cstate_eqb (st w) Awaiting then ret tt else set_st Handling) ;;;
+(* _process_resend after the state switch *)
+Definition resend_core (f : frame) : M unit :=
   let b := f_a f in
   let e := if f_b f =? 0 then MAXSIZE else f_b f in
   w <- get ;;
@@ -317,6 +316,11 @@ Definition process_resend (f : frame) : M unit :=
   set_seq_num (Some current) None ;;;
   w <- get ;;
   if cstate_eqb (st w) Awaiting then ret tt else set_st Active.
+
+Definition process_resend (f : frame) : M unit :=
+  w <- get ;;
+  (if cstate_eqb (st w) Awaiting then ret tt else set_st Handling) ;;;
+  resend_core f.
 
 (* FIXSession.set_next_num_in + _finalize_message *)
 Definition finalize (f : frame) : M unit :=
